@@ -316,8 +316,12 @@ def gen_history_case(rng, i, nested=False, nops=None):
         stamp[0] += rng.choice([1, 1, 1, 2, 7])
         via_import = "lib" in path
         t = gen_tmpl(rng, cfg, level, path, versions[path], flat, via_import, pools)
-        files[path] = level
         ops.append(["write", ROOT + "/" + path, t, stamp[0]])
+        if path in files and not cfg.get("root") and rng.random() < 0.12:
+            # replaced by a file with the OLD modification time (cp -p, rsync -t): vinegar's loader hashes ctime, inode
+            # and size as well; with root_dir Jinja2's own loader compares the mtime alone (documented there)
+            ops[-1].append("keep_mtime")
+        files[path] = level
 
     tops = rng.sample(LEVEL_FILES[0], rng.randrange(1, 3))
     l1 = rng.sample(LEVEL_FILES[1], rng.randrange(2, 6))
@@ -514,7 +518,7 @@ def shrink_history(case):
         return d
 
     def map_writes(f):
-        return [[op[0], op[1], f(op[2]), op[3]] if op[0] == "write" else op for op in ops]
+        return [[op[0], op[1], f(op[2]), op[3]] + list(op[4:]) if op[0] == "write" else op for op in ops]
 
     n = len(ops)
     render_idx = [i for i, op in enumerate(ops) if op[0] == "render"]
@@ -591,7 +595,7 @@ def shrink_history(case):
     stamps = sorted({op[3] for op in ops if op[0] == "write"})
     if stamps and stamps != list(range(1, len(stamps) + 1)):
         m = {s: k + 1 for k, s in enumerate(stamps)}
-        yield mk(o=[[op[0], op[1], op[2], m[op[3]]] if op[0] == "write" else op for op in ops])
+        yield mk(o=[[op[0], op[1], op[2], m[op[3]]] + list(op[4:]) if op[0] == "write" else op for op in ops])
 
 
 def shrink_access(case):
